@@ -63,6 +63,8 @@ def make_ind(ind, k):
     # re-evaluated objectives) - every third history position reuses a vector, so that nothing in the archive may
     # identify a member by its design instead of by position / identity
     o = Individual([float(k if k % 3 else 0)])
+    if k % 2 == 1:
+        o.id = 10 ** 9 - o.id        # ids are not ascending in the order in which solutions are offered
     o.costs_signed = list(c) + [m]
     o.features["verif_feature"] = f
     o.custom["k"] = k
@@ -73,6 +75,10 @@ def members(archive):
     return [o.custom["k"] for o in archive]
 
 
+class EntryPointMismatch(Exception):
+    pass
+
+
 def impl_run(kind, eps, inds, size, larger):
     """-> (flags, [ids after each add], ids after truncate)"""
     a = make_archive(kind, eps)
@@ -81,6 +87,29 @@ def impl_run(kind, eps, inds, size, larger):
     for o in objs:
         flags.append(a.add(o))
         steps.append(members(a))
+    # the same history through the other entry points (append, extend, += with one solution or a batch): "any sequence
+    # of additions" - the content is the same non-dominated set of everything offered
+    b = make_archive(kind, eps)
+    objs2 = [make_ind(ind, k) for k, ind in enumerate(inds)]
+    k = 0
+    while k < len(objs2):
+        how = (k + len(objs2)) % 4
+        n = 1 + (k * 7 + len(objs2)) % 3
+        chunk = objs2[k:k + n]
+        if how == 0:
+            b.extend(chunk)
+        elif how == 1:
+            b += chunk
+        elif how == 2:
+            for o in chunk:
+                b.append(o)
+        else:
+            for o in chunk:
+                b += o
+        k += n
+    if sorted(members(a)) != sorted(members(b)):
+        raise EntryPointMismatch("the archive fed through extend / append / += holds members %r, the one fed through add() holds %r "
+                                 "(history positions)" % (sorted(members(b)), sorted(members(a))))
     a.truncate(size, "verif_feature", larger_preferred=larger)
     return flags, steps, members(a)
 
@@ -384,6 +413,10 @@ def run(ctx):
             impls.append(impl_run(kind, eps, inds, size, larger))
         except (IndexError, ZeroDivisionError) as e:
             impls.append("%s: %s" % (type(e).__name__, e))
+        except EntryPointMismatch as e:
+            ctx.fail("archive-entry-points", "%s archive, history (costs+[marker]) %r: %s" % (kind, [list(cc) + [m] for cc, m, _ in inds], e),
+                     case_dict(kind, eps, inds, size, larger))
+            return
     answers = ctx.lean([line(*c) for c in cases])
     finals = {}
     for ci, (c, impl, ans) in enumerate(zip(cases, impls, answers)):
